@@ -1,3 +1,4 @@
+import Chartparse.Proofs.ChartOrder
 import Chartparse.Proofs.Strict
 import Chartparse.Proofs.ChainProofs
 /-! Property theorems of C12 (statements only; helper lemmas live in `Proofs/`). -/
@@ -59,5 +60,23 @@ theorem C12_strict :
 theorem strict_fails_outside_envelope :
     usOfSeconds (secsFromTicks 20000000000000000 (decodeBpm 30000000) 1000) =
     usOfSeconds (secsFromTicks 20000000000000001 (decodeBpm 30000000) 1000) := by decide +kernel
+
+/-- **C12 at chart level**: across *all* timestamped events of a returned chart — whatever their kind, section or track —
+    an event at a later-or-equal tick never has an earlier timestamp, and events at equal ticks have equal timestamps -/
+theorem C12_chart :
+    ∀ (secs : Sections) (want : Option (List (Nat × Nat))) (c : Chart)
+    (h : parseSections secs want = .ok c),
+    ∀ p ∈ timed c, ∀ q ∈ timed c, (p.1 ≤ q.1 → p.2 ≤ q.2) ∧ (p.1 = q.1 → p.2 = q.2) :=
+  @Chartparse.chart_time_order
+
+/-- the same, from the text: `Chart.from_file` -/
+theorem C12_from_file :
+    ∀ (text : Str) (want : Option (List (Nat × Nat))) (c : Chart) (h : parseChart text want = .ok c),
+    ∀ p ∈ timed c, ∀ q ∈ timed c, (p.1 ≤ q.1 → p.2 ≤ q.2) ∧ (p.1 = q.1 → p.2 = q.2) :=
+  @Chartparse.text_time_order
+
+/-- non-vacuity of `C12_from_file`: a text the model parses, with a tempo change between its events -/
+example : (match parseChart (cp "[Song]\n{\n  Resolution = 192\n}\n[SyncTrack]\n{\n  0 = TS 4\n  0 = B 120000\n  100 = B 60000\n}\n[Events]\n{\n  250 = E \"section a\"\n}\n[ExpertSingle]\n{\n  5 = N 0 0\n  300 = N 1 10\n}\n") none with
+    | .ok c => timed c | _ => []) = [(0, 0), (250, 1041667), (5, 13021), (300, 1302084)] := by decide +kernel
 
 end Chartparse.Props.C12
